@@ -156,6 +156,9 @@ type seqOp struct {
 type seqCase struct {
 	Fmt fmtSpec `json:"fmt"`
 	Ops []seqOp `json:"ops"`
+	// Skip: the history starts where a long-lived process arrives after 2^Skip acquisitions
+	// (16, 31, 32): the pool's id counter is moved to three below that number first
+	Skip int `json:"ids_already_used_2_to_the,omitempty"`
 }
 
 type heldName struct {
@@ -176,6 +179,10 @@ func runSeq(c seqCase) (fail *vh.Failure) {
 		}
 	}()
 	pool := namepool.Pool(c.Fmt.format())
+	if c.Skip > 0 {
+		namepool.VerifSkipIDs(pool, c.Skip)
+		vh.Label(fmt.Sprintf("ids-beyond-2^%d", c.Skip))
+	}
 	var held []heldName
 	var released []heldName  // zeroed pointers with the id they had
 	live := map[uint64]int{} // id -> op index of acquisition
@@ -372,6 +379,9 @@ func TestSequentialModel(t *testing.T) {
 			}
 			c.Ops = append(c.Ops, op)
 		}
+		if rapid.IntRange(0, 5).Draw(rt, "skip") == 0 {
+			c.Skip = rapid.SampledFrom([]int{16, 31, 32}).Draw(rt, "skipbits")
+		}
 		if n <= 8 {
 			vh.Sample("sequential", c)
 		}
@@ -400,6 +410,9 @@ type concCase struct {
 	GCs    int      `json:"gcs"`    // budget of 'G' ops that really collect, per execution
 	Progs  []string `json:"progs"`  // program templates
 	Assign []int    `json:"assign"` // goroutine -> template index
+	// Others: that many further goroutines use OTHER pools (formats of their own) for as long as
+	// the execution lasts: statements and cursors of one application are named from two pools
+	Others int `json:"goroutines_on_other_pools,omitempty"`
 }
 
 type event struct {
@@ -728,8 +741,41 @@ func execOnce(c *concCase, rep, reps int) (*vh.Failure, execStats) {
 			w.run(c, pool, mon, &gcBudget)
 		}(ws[g])
 	}
+	stopOthers := make(chan struct{})
+	var owg sync.WaitGroup
+	for o := 0; o < c.Others; o++ {
+		owg.Add(1)
+		go func(o int) {
+			defer owg.Done()
+			format := []string{"cursor_%d", "c%dx", "other_pool_no_%d_"}[o%3]
+			other := namepool.Pool(format)
+			<-start
+			for i := 0; ; i++ {
+				select {
+				case <-stopOthers:
+					return
+				default:
+				}
+				n := other.Acquire()
+				if want := fmt.Sprintf(format, n.ID()); n.Name() != want || n.String() != want {
+					mon.failNow(&rawFail{class: "C18/text-not-format-of-id", msg: fmt.Sprintf("a goroutine using another pool (format %q) at the same time: id %d has the text Name()=%q String()=%q, want %q", format, n.ID(), n.Name(), n.String(), want)})
+					other.Release(n)
+					return
+				}
+				other.Release(n)
+				if i%8 == 0 {
+					runtime.Gosched()
+				}
+			}
+		}(o)
+	}
 	close(start)
 	wg.Wait()
+	close(stopOthers)
+	owg.Wait()
+	if c.Others > 0 {
+		vh.Label("other-pools-in-use-at-the-same-time")
+	}
 	st := execStats{reuse: mon.reuse, reuseAny: mon.reuseAny, maxLive: mon.maxLive}
 	for _, w := range ws {
 		st.ops += w.ops
@@ -892,6 +938,9 @@ func TestConcurrentHolders(t *testing.T) {
 		}
 		c.Procs = rapid.SampledFrom([]int{1, 4, 16}).Draw(rt, "procs")
 		c.Reps = rapid.IntRange(3, 6).Draw(rt, "reps")
+		if rapid.IntRange(0, 2).Draw(rt, "others") == 0 {
+			c.Others = rapid.IntRange(1, 3).Draw(rt, "nothers")
+		}
 		alpha := alphaMixed
 		switch rapid.IntRange(0, 4).Draw(rt, "style") {
 		case 1:
